@@ -205,6 +205,9 @@ def shards(tier, seed):
     out += [{'what': 'exact', 'B': b, 'rot': r} for b in bez for r in (0, 37)]
     out.append({'what': 'paths'})
     out.append({'what': 'circles'})
+    out += [{'what': 'grid', 'size': list(sz), 'kinds': k, 'long': lg}
+            for sz in (isect.GRID_SIZES_QUICK if tier == 'quick' else isect.GRID_SIZES_THOROUGH)
+            for k in (('L',) if sz[0] * sz[1] > 1100 else ('L', 'LQC')) for lg in (False, True, 'over_zigzag')]
     return out
 
 
@@ -229,6 +232,8 @@ def run_shard(desc, tier, seed):
                     check_circles(R, bs, tA, tB, al, acc)
     elif desc['what'] == 'exact':
         check_exact(desc['B'], desc['rot'], tp['lat'], acc)
+    elif desc['what'] == 'grid':
+        isect.check_grid(desc['size'][0], desc['size'][1], desc['kinds'], desc['long'], acc, ('count',), 'C12')
     else:
         check_paths(acc)
     return acc
@@ -236,7 +241,7 @@ def run_shard(desc, tier, seed):
 
 def expected_classes(tier):
     out = ['constructed/%s%s' % (a, b) for a in 'LQCA' for b in 'LQCA']
-    out += ['exact/L/count1', 'exact/Q/count1', 'exact/Q/count2', 'exact/C/count1', 'exact/C/count2', 'exact/C/count3', 'exact/C/count0', 'circles/ratio_gt1e3', 'circles/ratio_le1e3']
+    out += ['exact/L/count1', 'exact/Q/count1', 'exact/Q/count2', 'exact/C/count1', 'exact/C/count2', 'exact/C/count3', 'exact/C/count0', 'circles/ratio_gt1e3', 'circles/ratio_le1e3', 'grid/lt256', 'grid/ge256', 'grid/ge4096']
     return out
 
 
@@ -249,7 +254,10 @@ def space(tier, seed):
 
 def replay(case):
     acc = core.ReplayAcc()
-    if case['what'] == 'circles':
+    if case['what'] == 'grid':
+        isect.check_grid(case['n_comb'], case['n_rungs'], case['kinds'], case['long_stroke'], acc, ('count',), 'C12')
+        acc.vlist = [v for v in acc.vlist if v['case'].get('order') == case.get('order')]
+    elif case['what'] == 'circles':
         check_circles(case['R'], case['bscale'], case['tA'], case['tB'], case['alpha'], acc)
         acc.vlist = [v for v in acc.vlist if v['case'].get('order') == case.get('order')]
     elif case['what'] == 'constructed':
